@@ -784,7 +784,8 @@ class Exec:
             if not (src.kind == 'mapiter' and src.x['what'] == 'items' and isinstance(tgt, ast.Tuple) and len(tgt.elts) == 2
                     and all(isinstance(t, ast.Name) for t in tgt.elts) and isinstance(e.key, ast.Name) and isinstance(e.value, ast.Name)
                     and e.key.id == tgt.elts[0].id and e.value.id == tgt.elts[1].id):
-                return V('opaque')
+                # another shape: handed to the contract as it is (a callee handler may interpret it); any other use of its content is out of reach
+                return V('dictcomp', None, node=e, src=src, st=st)
             m = src.x['m']
             if m.get('empty'): return m
             arr, dom = m.t
